@@ -281,6 +281,13 @@ C02_IdlessVehicles(ents, r) ==
         got == {r.vehicles[ix[n]].body : n \in DOMAIN ix}
         want == Range(CanonIdlessVehicles(ents))
     IN got = want /\ Len(ix) = Len(CanonIdlessVehicles(ents))
+(* the trip a vehicle position names on the wire is the trip its Vehicle refers to *)
+C02_VehicleTripField(ents, r) ==
+    \A i \in DOMAIN ents : (ents[i].k = "vp" /\ IsSome(ents[i].trip)) =>
+        \E j \in DOMAIN r.vehicles :
+            /\ IF i \in IdlessVPs(ents) THEN IsNone(r.vehicles[j].body.id) /\ r.vehicles[j].body = VehicleOfVP(ents[i])
+                                        ELSE r.vehicles[j].body.id = VehId(Val(ents[i].veh))
+            /\ IsSome(r.vehicles[j].trip) /\ Val(r.vehicles[j].trip).key = TripKey(Val(ents[i].trip))
 NoEnts(a) == [a EXCEPT !.ents = <<>>]
 C02_Alerts(ents, r) ==
     /\ Len(r.alerts) = Len(CanonAlerts(ents))
